@@ -129,8 +129,11 @@ def run(tier):
     # (7) a failing library call is REPORTED in debug mode - also when its failure value is not null (arrayLength -> 0, indexOf -> -1 ...)
     for call, fv in (("arrayLength(5)", 0.0), ("stringLength(5)", 0.0), ("arrayIndexOf(5, 1)", -1.0), ("arrayLastIndexOf(5, 1)", -1.0),
                      ("stringIndexOf(5, 'a')", -1.0), ("stringLastIndexOf(5, 'a')", -1.0), ("objectHas(5, 'a')", False), ("objectGet(5, 'a', 7)", 7.0),
-                     ("arrayGet(5, 0)", None), ("mathSqrt('x')", None)):
-        cases.append({'text': f"x = {call}\nsystemLog('after')\nreturn x\n", 'globals': {}, 'debug': True, 'max': 100})
+                     ("arrayGet(5, 0)", None), ("mathSqrt('x')", None),
+                     # an index beyond every float (a host int of 400 digits) is an invalid argument like any other: the documented failure value
+                     ("stringIndexOf('abc', 'b', hg)", -1.0), ("stringLastIndexOf('abc', 'b', hg)", -1.0), ("arrayIndexOf(arrayNew(1, 2), 2, hg)", -1.0),
+                     ("arrayLastIndexOf(arrayNew(1, 2), 2, hg)", -1.0), ("arrayGet(arrayNew(1), hg)", None), ("stringCharCodeAt('abc', hg)", None)):
+        cases.append({'text': f"x = {call}\nsystemLog('after')\nreturn x\n", 'globals': {'hg': interp.vint(10 ** 400)}, 'debug': True, 'max': 100})
         meta.append(('failure-report', (call, fv)))
     # (8) library functions that exhaust the host's recursion limit on containers that contain themselves: the call is null (reported in debug
     #     mode) and execution continues - it is not a script error
